@@ -7,6 +7,7 @@ Adding a triangle that shares `k ≥ 1` segments with the tracked boundary and p
 closes up into a sphere — the special case split by area afterwards).
 -/
 namespace M3d.Param
+set_option linter.unusedSimpArgs false
 open M3d.Surface
 
 theorem numV_snoc (ts : List Tri) (t : Tri) :
